@@ -338,7 +338,22 @@ func (r *flowRun) call(c *ssa.Call, idx int) {
 			name = "dyncall:param:" + p.Name()
 		}
 	}
-	r.out[fmt.Sprintf("call:%s#%d", name, idx)] = true
+	// a helper of the analysed modules that is entered below is transparent: the value has
+	// the origins of what the helper returns, not the helper's call as an origin of its own
+	followed := false
+	if r.f.Inter && !cc.IsInvoke() && r.depth < 4 {
+		if sc := cc.StaticCallee(); sc != nil {
+			fn := sc
+			if o := sc.Origin(); o != nil {
+				fn = o
+			}
+			exported := fn.Object() != nil && fn.Object().Exported()
+			followed = r.f.p.InScope(fn) && len(fn.Blocks) > 0 && !exported && !r.f.Opaque[fn]
+		}
+	}
+	if !followed {
+		r.out[fmt.Sprintf("call:%s#%d", name, idx)] = true
+	}
 	if r.f.Inter && !cc.IsInvoke() && r.depth < 4 {
 		if sc := cc.StaticCallee(); sc != nil {
 			fn := sc
